@@ -156,10 +156,11 @@ PROPS["C02"]["explanation"] = ("export_tabs proved against the documented tab-st
                                "real function); export_format proved to produce word TABS [lemma TABS] label TAB morph TABS edge TAB parent NEWLINE "
                                "with '--' for absent fields and to store nothing else; the writers as a whole are bounded only.")
 
-_pb("C05", "contract-based deductive verification (pyvc) of the grouping loop of boyd_split (loop invariant over a list of lists) and of the re-attachment steps of boyd_split and raising as block contracts; bounded stand-in against the reference ref_raise",
+_pb("C05", "contract-based deductive verification (pyvc) of the grouping loop of boyd_split (loop invariant over a list of lists), of the selection loop of raising and of the re-attachment steps of boyd_split and raising as block contracts; bounded stand-in against the reference ref_raise",
     "The grouping loop of boyd_split is proved, for every well-formed node, to partition the children (ordered by leftmost "
     "token) into consecutive slices such that inside a slice each child starts at most one past the last token of its left "
-    "neighbour and between two slices there is a gap - 'one block node per continuous block'. The four `children.remove` "
+    "neighbour and between two slices there is a gap - 'one block node per continuous block'. The selection loop of raising "
+    "is proved to list exactly the split nodes below the root that are not head blocks, in preorder, each once. The four `children.remove` "
     "steps of boyd_split and raising (detach of the split node, move of each child) keep parent/child links consistent "
     "(block contracts on the real statements). The transformations as a whole are outside the reach of pyvc (lazy generator "
     "consumed while the tree it walks is mutated) and are bounded only.",
